@@ -28,6 +28,7 @@ import (
 	"sync"
 	"time"
 	"verifharness/internal/metricsx"
+	"verifharness/internal/netx"
 
 	"reservoir/config"
 	"reservoir/proxy"
@@ -215,7 +216,7 @@ func New(o Opts) *Env {
 		panic(err)
 	}
 	e := &Env{Opts: o, Cfg: cfg, Proxy: p, ErrLog: &syncBuf{}, CacheDir: dir, cancel: cancel}
-	e.Srv = httptest.NewUnstartedServer(p)
+	e.Srv = netx.Server(p)
 	e.Srv.Config.ErrorLog = log.New(e.ErrLog, "", 0)
 	e.Srv.Start()
 	return e
@@ -374,7 +375,7 @@ func (e *Env) Plain(r Req) (*Resp, error) {
 }
 
 func (e *Env) plainOnce(r Req) (*Resp, error) {
-	c, err := net.DialTimeout("tcp", e.Addr(), 5*time.Second)
+	c, err := netx.Dial(e.Addr(), 5*time.Second)
 	if err != nil {
 		return nil, err
 	}
@@ -398,7 +399,7 @@ type Tunnel struct {
 // Connect opens a CONNECT tunnel to authority (host:port) and completes the TLS
 // handshake against the test CA.
 func (e *Env) Connect(authority string) (*Tunnel, error) {
-	c, err := net.DialTimeout("tcp", e.Addr(), 5*time.Second)
+	c, err := netx.Dial(e.Addr(), 5*time.Second)
 	if err != nil {
 		return nil, err
 	}
@@ -510,7 +511,7 @@ func (e *Env) Open(transport string, r Req) (*Stream, error) {
 		}
 		return &Stream{Resp: resp, T0: t0, conn: t.raw, extra: t.tls}, nil
 	}
-	c, err := net.DialTimeout("tcp", e.Addr(), 5*time.Second)
+	c, err := netx.Dial(e.Addr(), 5*time.Second)
 	if err != nil {
 		return nil, err
 	}
@@ -552,7 +553,7 @@ func (e *Env) Start(transport string, r Req) (*Pending, error) {
 		}
 		return &Pending{T0: t0, method: r.Method, conn: t.raw, br: t.br, extra: t.tls}, nil
 	}
-	c, err := net.DialTimeout("tcp", e.Addr(), 5*time.Second)
+	c, err := netx.Dial(e.Addr(), 5*time.Second)
 	if err != nil {
 		return nil, err
 	}
